@@ -48,7 +48,14 @@ def demote_rewritten(r):
             continue
         q = o.construct.split("#")[0].split("@")[0]
         if q not in cache:
-            cache[q] = similarity_to_baseline(r.P, q, base)
+            sim_ = similarity_to_baseline(r.P, q, base)
+            if sim_ is None and q in r.P.functions:
+                # a function that did not exist on the validated tree is judged by the validated functions it was carved out of (its callers)
+                from .rules import baseline_owners
+                owners = [o_ for o_ in baseline_owners(r, q) if o_ != q]
+                sims = [x for x in (similarity_to_baseline(r.P, o_, base) for o_ in owners) if x is not None]
+                sim_ = min(sims) if sims else None
+            cache[q] = sim_
         sim = cache[q]
         if sim is not None and sim < REWRITTEN_BELOW:
             o.detail["undecided"] = f"{q} was rewritten wholesale relative to the validated tree (similarity {sim:.2f} < {REWRITTEN_BELOW})"
